@@ -443,29 +443,6 @@ func (a *anchors) isWriterWrite(in ssa.Instruction, m ssa.Value) (isWrite bool, 
 	return true, nil
 }
 
-// isRestore recognises the explicit undo `m.F = saved` where saved was loaded from m.F before
-// instruction `before` executed (save/restore idiom).
-func isRestore(in ssa.Instruction, m ssa.Value, f *types.Var, before ssa.Instruction) bool {
-	st, ok := in.(*ssa.Store)
-	if !ok || !AddrPath(st.Addr).Is(m, f) {
-		return false
-	}
-	leaves := ssau.Leaves(st.Val)
-	if len(leaves) == 0 {
-		return false
-	}
-	for _, l := range leaves {
-		if l == nil || !isLoadOf(l, m, f) {
-			return false
-		}
-		ld, ok := l.(ssa.Instruction)
-		if !ok || ld.Parent() != before.Parent() || !ssau.InstrBefore(ld, before) {
-			return false
-		}
-	}
-	return true
-}
-
 // genCall is one call site of a table generator.
 type genCall struct {
 	caller *ssa.Function
@@ -479,19 +456,8 @@ func TablePairing(p *load.Program, r *report.Report) {
 		return
 	}
 	// generators = Muxer methods with effects (inc on a Muxer counter / clearing a Muxer flag)
-	sums := map[*ssa.Function]Summary{}
-	var gens []*ssa.Function
-	for _, f := range nonTestFuncs(p) {
-		if recvNamed(f) != "Muxer" || f.Parent() != nil {
-			continue
-		}
-		s := a.Summarize(f)
-		if len(s.Effects) == 0 {
-			continue
-		}
-		sums[f] = s
-		gens = append(gens, f)
-	}
+	gens, sums := a.generators()
+	u := a.newUndoCtx(gens, sums)
 	callers := map[*ssa.Function][]genCall{}
 	for _, f := range nonTestFuncs(p) {
 		for _, g := range gens {
@@ -520,7 +486,7 @@ func TablePairing(p *load.Program, r *report.Report) {
 			}
 			for _, fb := range fails {
 				res := MustReachBlock(gc.caller, fb, Flow{
-					Stop: func(in ssa.Instruction) bool { return isRestore(in, m, fv, gc.call) },
+					Stop: func(in ssa.Instruction) bool { return u.isRestore(in, m, fv, gc.call) },
 					Bad: func(in ssa.Instruction) string {
 						if _, ok := in.(*ssa.Return); ok {
 							return "return"
@@ -551,7 +517,7 @@ func TablePairing(p *load.Program, r *report.Report) {
 			// part 1: effects kept on failing exits of the generator itself
 			ef := ef
 			res := MustReach(g, ef.Instr, Flow{
-				Stop: func(in ssa.Instruction) bool { return isRestore(in, m, ef.Field, ef.Instr) },
+				Stop: func(in ssa.Instruction) bool { return u.isRestore(in, m, ef.Field, ef.Instr) },
 				Bad: func(in ssa.Instruction) string {
 					ret, ok := in.(*ssa.Return)
 					if !ok {
@@ -633,7 +599,7 @@ func TablePairing(p *load.Program, r *report.Report) {
 						if w, buf := a.isWriterWrite(in, m); w && buf == s.OutBuf {
 							return true
 						}
-						return isRestore(in, m, ef.Field, c)
+						return u.isRestore(in, m, ef.Field, c)
 					},
 					Bad: func(in ssa.Instruction) string {
 						ret, ok := in.(*ssa.Return)
